@@ -166,7 +166,11 @@ pub fn run(tape: &[u8], cx: &Cx) -> Outcome {
     // a fifth of the cases: long strings (block-wise comparison code paths) that agree on a long
     // prefix and differ by one edit
     if t.bool_p(50) {
-        let len = 12 + t.choose(40);
+        // lengths 12..140, a third of them next to a block size (word-wise / SIMD-width comparison loops)
+        let mut len = 12 + t.choose(129);
+        if t.bool_p(85) {
+            len = t.pick(&[15usize, 16, 17, 31, 32, 33, 63, 64, 65, 127, 128, 129]);
+        }
         let base: Vec<u32> = (0..len).map(|_| alpha[t.weighted(&[5, 4, 2, 1, 1])]).collect();
         let edit = |t: &mut Tape, base: &Vec<u32>| -> Vec<u32> {
             let mut v = base.clone();
